@@ -24,12 +24,14 @@ class _NullRec:
 
 
 def grow_container(fam, kind, impl, rng, sizes=None, via_subclass=False,
-                   steps=None, thin=True, universe=None, values=None):
+                   steps=None, thin=True, universe=None, values=None,
+                   exclude=()):
     """Run a mutation-only history and return the LockStep (container +
     model, kept in step structurally: judge=False)."""
     ls = hist.LockStep(fam, kind, impl, rng, _NullRec(), sizes=sizes,
                        via_subclass=via_subclass, structure=False,
                        adversarial=0.4, read_ops=False, judge=False)
+    ls.g.exclude = exclude
     if universe is not None:
         ls.g.universe = universe
     if values is not None:
